@@ -14,10 +14,10 @@ import sys
 import time
 
 ROOT = os.path.dirname(os.path.dirname(os.path.abspath(__file__)))
-EVIDENCE_DIR = os.path.join(ROOT, 'evidence')
-REPLAY_DIR = os.path.join(ROOT, 'replays')
+EVIDENCE_DIR = os.environ.get('VERIF_EVIDENCE_DIR') or os.path.join(ROOT, 'evidence')
+REPLAY_DIR = os.environ.get('VERIF_REPLAY_DIR') or os.path.join(ROOT, 'replays')
 KNOWN_FILE = os.path.join(ROOT, 'known_findings.json')
-REPO = '/repo'
+REPO = os.path.realpath(os.environ.get('VERIF_REPO') or '/repo')
 MAX_REPLAY_FILES = 40
 NPROC = int(os.environ.get('VERIF_NPROC', '16'))
 
